@@ -259,6 +259,18 @@ func buildCatalogue() []item {
 	add("ca-has-eku", true, caOnly, func(d *desc, pos int) {
 		d.specs[pos].EKU = []x509.ExtKeyUsage{x509.ExtKeyUsageServerAuth, x509.ExtKeyUsageTimeStamping}
 	})
+	// the last certificate names a legacy signature algorithm (which crypto/x509
+	// refuses to verify) over a signature that does not verify: self-issued, not
+	// self-signed
+	add("last-certificate-names-sha1-over-a-foreign-signature", false, rootOnly, func(d *desc, pos int) {
+		d.post = append(d.post, func(c []*x509.Certificate) []*x509.Certificate {
+			c = append([]*x509.Certificate{}, c...)
+			if r, err := pki.RelabelSignature(c[len(c)-1]); err == nil {
+				c[len(c)-1] = r
+			}
+			return c
+		})
+	})
 	// --- validity ------------------------------------------------------------------
 	add("narrower-validity", true, anyPos, func(d *desc, pos int) {
 		d.specs[pos].NotBefore = time.Date(2018, 3, 1, 0, 0, 0, 0, time.UTC)
